@@ -3,7 +3,8 @@
 //              enqueue_task [cut: stub records the task] -> loop { my_exit_monitors.prepare_wait; work done? ; occupy_free_slot ; commit_wait }
 //              -> on success nested_arena_context (real ctor/dtor) + r1::wait [external: stub runs the recorded delegated task]
 //   leaver  L: real ~nested_arena_context(): ... td.my_arena_slot->release(); td.my_arena->my_exit_monitors.notify_one()
-//   worker  W: real delegated_task::execute -> m_delegate(); finalize(): m_wait_ctx.release(); m_monitor.notify(ctx == &delegate)
+//   worker  W: (a worker attached to the other slot, or - gated - the entrant's own dispatch loop inside r1::wait, modelled as a thread of its own)
+//              real delegated_task::execute -> m_delegate(); finalize(): m_wait_ctx.release(); m_monitor.notify(ctx == &delegate)
 // over the real concurrent_monitor / sleep_node / binary_semaphore (futex stub). Pre-states are white-box (zeroed objects + the fields the
 // encoded functions read), built with the real occupy_free_slot / try_occupy / nested_arena_context constructor.
 #include "src/tbb/arena.cpp"
@@ -30,8 +31,6 @@ extern "C" void vp_thr_worker(thread_data* td, int tid) {
   if (t) static_cast<delegated_task*>(t)->delegated_task::execute(td->my_task_dispatcher->m_execute_data_ext);
   vp_done(tid);
 }
-// run the delegated task on the calling thread's current dispatcher (used by the r1::wait stub: the entrant got a slot and runs the dispatch loop)
-extern "C" void vp_dt_execute(d1::task* t, thread_data* td) { static_cast<delegated_task*>(t)->delegated_task::execute(td->my_task_dispatcher->m_execute_data_ext); }
 extern "C" int vp_wait_ctx_done(d1::wait_context* w) { return !w->continue_execution(); }
 
 // ---- pre-state
